@@ -17,6 +17,8 @@ def main():
     todo = []
     for d in sorted(os.listdir(os.path.join(HERE, "seeded"))):
         mp = os.path.join(HERE, "seeded", d, "meta.json")
+        if not os.path.isfile(mp):
+            continue
         m = json.load(open(mp))
         since = m.get("reconfirmed", {}).get("repo_head", FIRST)
         if since == head and "--all" not in sys.argv:
